@@ -2,7 +2,7 @@
    eval  = environment-passing big-step semantics (coq/C01/Spec.v), eval_spec := eval cart  (the FEEL semantics);
    run   = the evaluator as a scope-stack machine (coq/C01/Impl.v),   run_impl  := run cart_impl (the code as it is). *)
 From Coq Require Import List ZArith NArith Bool.
-From DV Require Import C01.Syntax C01.Spec C01.Impl C01.Proofs C01.Types.
+From DV Require Import C01.Syntax C01.Spec C01.Impl C01.Proofs C01.Types C01.FreeNames.
 From DV Require C16.Model C16.Proofs.
 Import ListNotations.
 Open Scope Z_scope.
@@ -68,6 +68,61 @@ Example C01_nonvacuous :
          (EBin Add (EBin Mul (EName 102%N) (EName 101%N)) (EName 103%N)))) = VList [VNum 3; VNum 4; VNum 5; VNum 6].
 Proof. vm_compute. split; reflexivity. Qed.
 
+(* ---------- "the result depends only on the expression text and on the values bound to its free names" (coq/C01/FreeNames.v) ----------
+   names e = every name the expression refers to (EName occurrences, also inside tests, domains, arguments, function bodies);
+   A = any set of names containing them;  aclosed A v = every function value inside v has names body within A.
+   Function bodies run in the caller's stack (listed known finding dynamic-scope), hence the hypothesis that the values the
+   stack binds to names of A are closed; nothing is asked of the values bound to other names. *)
+(* both enumerations of iteration tuples only re-arrange the domain values into contexts *)
+Theorem C01_enumerations_rearrange : forall A, rearranges A cart /\ rearranges A cart_impl.
+Proof. exact (fun A => conj (cart_rearranges A) (cart_impl_rearranges A)). Qed.
+(* values computed by an expression over A from such a stack are closed again, for every such enumeration, fuel, stack and expression *)
+Theorem C01_closed_values_preserved : forall A cartf, rearranges A cartf -> forall f S e,
+  (forall n, In n (names e) -> A n = true) ->
+  (forall n v, A n = true -> lookup n S = Some v -> aclosed A v = true) -> aclosed A (eval cartf f S e) = true.
+Proof. exact closed_values_preserved. Qed.
+(* a stack S' that agrees with S on A gives the same value: in the FEEL semantics and in the code as it is *)
+Theorem C01_depends_only_on_occurring_names : forall A f e S S',
+  (forall n, In n (names e) -> A n = true) ->
+  (forall n v, A n = true -> lookup n S = Some v -> aclosed A v = true) ->
+  (forall n, A n = true -> lookup n S = lookup n S') ->
+  eval_spec f S e = eval_spec f S' e /\ fst (run_impl f S e) = fst (run_impl f S' e).
+Proof. exact depends_only_on_occurring_names. Qed.
+(* when the names of e are bound to values without function values, their bindings alone decide the value *)
+Theorem C01_depends_only_on_occurring_names_nofun : forall f e S S',
+  (forall n v, In n (names e) -> lookup n S = Some v -> nofun v = true) ->
+  (forall n, In n (names e) -> lookup n S = lookup n S') ->
+  eval_spec f S e = eval_spec f S' e /\ fst (run_impl f S e) = fst (run_impl f S' e).
+Proof. exact depends_only_on_names_nofun. Qed.
+(* pushing any context of names outside A, or setting any name outside A on the top context, does not change the value *)
+Theorem C01_unrelated_bindings_irrelevant : forall A f e S,
+  (forall n, In n (names e) -> A n = true) ->
+  (forall n v, A n = true -> lookup n S = Some v -> aclosed A v = true) ->
+  (forall c, (forall n, A n = true -> ctx_get n c = None) ->
+     eval_spec f S e = eval_spec f (c :: S) e /\ fst (run_impl f S e) = fst (run_impl f (c :: S) e)) /\
+  (forall k v, A k = false ->
+     eval_spec f S e = eval_spec f (set_top k v S) e /\ fst (run_impl f S e) = fst (run_impl f (set_top k v S) e)).
+Proof. exact unrelated_bindings_irrelevant. Qed.
+(* the closedness hypothesis is necessary (known finding C01 dynamic-scope): vf() with vf = function() vb;
+   the two stacks agree on names e = [vf] and differ on vb *)
+Theorem C01_dynamic_scope_witness :
+  names w_e = [w_f] /\ (forall n, In n (names w_e) -> lookup n (w_S 1) = lookup n (w_S 2)) /\
+  eval_spec 5 (w_S 1) w_e = VNum 1 /\ eval_spec 5 (w_S 2) w_e = VNum 2 /\
+  fst (run_impl 5 (w_S 1) w_e) = VNum 1 /\ fst (run_impl 5 (w_S 2) w_e) = VNum 2.
+Proof. exact dynamic_scope_witness. Qed.
+(* why "names that occur" and not "free names": in the code an empty list domain binds nothing (known finding C01 empty-domain),
+   so the BOUND vx of  for vx in [], vy in [1] return vx  is looked up outside; in the semantics the result is [] *)
+Theorem C01_bound_name_leak_witness :
+  fst (run_impl 5 [[(l_x, VNum 1)]] l_e) = VList [VNum 1] /\ fst (run_impl 5 [[(l_x, VNum 2)]] l_e) = VList [VNum 2] /\
+  eval_spec 5 [[(l_x, VNum 1)]] l_e = VList [] /\ eval_spec 5 [[(l_x, VNum 2)]] l_e = VList [].
+Proof. exact bound_name_leak_witness. Qed.
+Example C01_free_names_nonvacuous :
+  (forall n, In n (names x_e) -> in_names x_e n = true) /\
+  (forall n v, in_names x_e n = true -> lookup n x_S = Some v -> aclosed (in_names x_e) v = true) /\
+  (forall n, in_names x_e n = true -> lookup n x_S = lookup n x_S') /\ x_S <> x_S' /\
+  fst (run_impl 20 x_S x_e) = VList [VNum 3; VNum 5] /\ fst (run_impl 20 x_S' x_e) = VList [VNum 3; VNum 5].
+Proof. exact nonvacuous. Qed.
+
 Print Assumptions C01_machine_refines_semantics.
 Print Assumptions C01_impl_refines_spec.
 Print Assumptions C01_enumeration_is_product.
@@ -85,3 +140,11 @@ Print Assumptions C01_type_of_is_C16.
 Print Assumptions C01_argument_coercion_is_C16.
 Print Assumptions C01_coerced_argument_conforms_or_null.
 Print Assumptions C01_nonvacuous.
+Print Assumptions C01_enumerations_rearrange.
+Print Assumptions C01_closed_values_preserved.
+Print Assumptions C01_depends_only_on_occurring_names.
+Print Assumptions C01_depends_only_on_occurring_names_nofun.
+Print Assumptions C01_unrelated_bindings_irrelevant.
+Print Assumptions C01_dynamic_scope_witness.
+Print Assumptions C01_bound_name_leak_witness.
+Print Assumptions C01_free_names_nonvacuous.
